@@ -40,7 +40,7 @@ func checkCoords(t *rapid.T, what string, p *secp256k1.Point) {
 // propFormulas enters the three raw formulas directly.
 func propFormulas(t *rapid.T) {
 	p, q, rel := gen.PointPair(t, "pq")
-	which := rapid.SampledFrom([]string{"addComplete", "addMixed", "doubleComplete", "rescale"}).Draw(t, "which")
+	which := gen.Sampled([]string{"addComplete", "addMixed", "doubleComplete", "rescale"}).Draw(t, "which")
 	alias := rapid.IntRange(0, 4).Draw(t, "alias")
 	if which == "addMixed" && q.Inf {
 		q = ref.G() // the mixed formula documents that the affine addend cannot be the identity
